@@ -903,7 +903,8 @@ async def _session(spec, tr, gw, obs, loop):
             beats[0] += 1
 
     hb = loop.create_task(heartbeat())
-    client = cls("/dev/fake") if cname == "waveshare" else cls("gw.invalid", 1)
+    ckw = {"build_network_map": True} if spec.get("netmap") else {}       # (seeding clients then run _seed_network_map)
+    client = cls("/dev/fake", **ckw) if cname == "waveshare" else cls("gw.invalid", 1, **ckw)
     tr.client = client
     # the constructor created the consumer task through the wrapped _process_queue: remember Traced -> Task
     client.set_status_callback(on_status)
@@ -949,6 +950,18 @@ async def _session(spec, tr, gw, obs, loop):
                     close_info["rcb_at_return"] = len(rcbs)
                 t.add_done_callback(closed_cb)
                 user_tasks.append(t)
+        elif name == "close2":      # a SECOND close() call, op[1] virtual seconds later (oracle-only sessions)
+            def again():
+                t2 = loop.create_task(client.close())
+
+                def closed2(_t):
+                    w = client.writer
+                    close_info["returned2"] = loop.time()
+                    close_info["link_open_at_return2"] = bool(w is not None and not getattr(w, "closed", True))
+                t2.add_done_callback(closed2)
+                user_tasks.append(t2)
+            close_info["second"] = True
+            loop.call_later(float(op[1]), again)
         elif name == "send":
             user_tasks.append(loop.create_task(client.send(msg)))
         elif name == "frames":
@@ -1027,6 +1040,10 @@ async def _session(spec, tr, gw, obs, loop):
     try:
         if rcb_close_at is not None or scb_close_on is not None:
             raise Unlabelled("oracle-only session: close() called from inside a callback is not a schedule of the LTS")
+        if spec.get("netmap"):
+            raise Unlabelled("oracle-only session: the network-map seeding task is not part of the LTS")
+        if close_info.get("second"):
+            raise Unlabelled("oracle-only session: the LTS has one close() call")
         labels = labelise(tr.blocks)
         obs["labels"] = [[a, s] for a, s in labels]
         obs["unlabelled"] = None
